@@ -1,12 +1,13 @@
 (* C09 -- property theorems only.  Each is closed by `exact` of a lemma from proofs/KindsMainProofs.v
    and followed by Print Assumptions.  cfg0 / keep0 (coq/model/KindsCfg.v) carry the shape switches and
    name tables read off the working tree (coq/gen/GenC09.v):
-     pow_fix   = c09_power_returns_kind   (KindInferenceMapper.map_power returns a kind)
-     new_marks = c09_new_entry_marks      (SymbolKindTable.set marks the table changed for a new entry)
-     isnan_any = c09_isnan_any            (builtin_isnan reduces with .any())
+     pow_fix         = c09_power_returns_kind   (KindInferenceMapper.map_power returns a kind)
+     new_marks       = c09_new_entry_marks      (SymbolKindTable.set marks the table changed for a new entry)
+     isnan_any       = c09_isnan_any            (builtin_isnan reduces with .any())
+     conflict_raises = c09_conflict_raises      (SymbolKindTable.set re-raises a failing unify)
    The theorems that cite `eq_refl` for a switch check only against the repaired shape; for the other shape
-   proofs/KindsMainProofs.v has the refutations every_assigned_refuted, soundness_refuted_stale and
-   builtins_refuted_isnan (with witnesses wit_pow, wit_stale). *)
+   proofs/KindsMainProofs.v has the refutations every_assigned_refuted (witness wit_pow),
+   soundness_refuted_stale (witness wit_stale) and builtins_refuted_isnan. *)
 From Coq Require Import List String.
 Import ListNotations.
 Open Scope string_scope.
@@ -36,19 +37,18 @@ Proof.
 Qed.
 Print Assumptions C09_every_assigned_has_kind.
 
-(* Soundness over the class semantics.  Hypotheses beyond "inference succeeds": no "trying to derive
-   'kind'" message was printed (sconf T = 0) and the program passes the side conditions `sides`
-   (operands of comparisons / min / max / subscripts are scalars, exponents are integer literals, no
-   int/int quotient, no flag literal, call arguments pass the functions' own check=True test, no scalar
-   is assigned to a variable that also holds an array or user-type value). *)
+(* Soundness over the class semantics.  Hypothesis beyond "inference succeeds": the program passes the
+   side conditions `sides` (operands of comparisons / min / max / subscripts are scalars, exponents are
+   integer literals, no int/int quotient, no flag literal, call arguments pass the functions' own
+   check=True test, no scalar is assigned to a variable that also holds an array or user-type value). *)
 Theorem C09_soundness_partial : forall reg fo fi D forced T,
-  infer cfg0 reg fo fi D forced = Ok T -> sconf T = 0 -> sides cfg0 reg D T = true ->
+  infer cfg0 reg fo fi D forced = Ok T -> sides cfg0 reg D T = true ->
   forall ph0 st0 ph st,
     store_ok T ph0 st0 -> creach cfg0 reg D keep0 ph0 st0 ph st -> store_ok T ph st.
 Proof.
   exact (fun reg fo fi D forced T =>
-           soundness cfg0 reg fo fi D forced T keep0 eq_refl (conj eq_refl eq_refl)
-                     (keep_of_state cfg0 c09_keep_exact c09_keep_prefixes eq_refl eq_refl)).
+           soundness_raises cfg0 reg fo fi D forced T keep0 eq_refl eq_refl (conj eq_refl eq_refl)
+                            (keep_of_state cfg0 c09_keep_exact c09_keep_prefixes eq_refl eq_refl)).
 Qed.
 Print Assumptions C09_soundness_partial.
 
@@ -65,9 +65,11 @@ Qed.
 Print Assumptions C09_soundness_checked_partial.
 
 (* the soundness part without side conditions is false for every shape (witness KindsMainProofs.wit_mixed:
-   x <- <t> > 1 and x <- <t> + 1; the conflict is printed and ignored) *)
+   a <- array(n); x <- a; x <- <t> -- the Array kind absorbs the Scalar, no message is printed) *)
 Theorem C09_soundness_refuted : ~ full_soundness cfg0 keep0.
-Proof. exact (full_soundness_false c09_power_returns_kind c09_new_entry_marks c09_isnan_any). Qed.
+Proof.
+  exact (full_soundness_false c09_power_returns_kind c09_new_entry_marks c09_isnan_any c09_conflict_raises).
+Qed.
 Print Assumptions C09_soundness_refuted.
 
 Theorem C09_builtins : forall f s a cs ks r,
